@@ -321,7 +321,15 @@ occurs twice, ids differ from the entry node's; rejected batches are skipped) th
 `min(degreeBound, searchSize − 1)` vectors is searched exactly without a filter: during the build every new
 node receives a back-edge from an existing node and no prune is ever triggered, so every node stays reachable
 from the entry node (`run_inserts_BInv`), and the search window holds the whole collection
-(`C03_exact_connected`).  The build search size plays no role; the insert workers are sequential (Model). -/
+(`C03_exact_connected`).  The build search size plays no role.
+
+PARTIAL with respect to the property text (the name is kept because the runner pins required theorem names and
+statement hashes; CONVENTIONS would call it `C03_exact_small_partial`): the build is `C10.run` — the insert
+workers run one after the other, in batch order — whereas the real code runs NumCPU−1 workers in parallel, and
+the statement is over `run` (the change stream), not lifted to `shardRun` / documents.  What is missing for the
+full statement: the reachability invariant `BInv` for interleaved `insertSinglePoint`s (two workers that both
+read a neighbour's edge list before either appends).  For the real workers the exactness clause is judged on
+the real answers by the harness (regime `exact-small`). -/
 theorem C03_exact_small (cfg : Cfg) (hR : 1 ≤ cfg.degreeBound) (steps : List (Step D))
     (hall : ∀ st ∈ steps, ∀ c ∈ st.batch, c.hasVector = true)
     (hnd : ((steps.flatMap (·.batch)).map (·.id)).Nodup)
